@@ -143,6 +143,17 @@ def run_case(cs):
             f = rng.choice(cand)
             data = ondisk[f]
             how = rng.choice(["flip", "append", "truncate", "replace"]) if data else "append"
+            twins = [g for g in rec_files if g != f and ondisk.get(g) is not None and ondisk[g] != data and g not in affected["removed"] and g not in affected["altered"] and not os.path.islink(os.path.join(root, g)) and not os.path.islink(os.path.join(root, f))]
+            if twins and rng.random() < 0.12:
+                # the file is replaced by a second name (hard link) of another recorded file: its content is now that
+                # file's content
+                g = rng.choice(twins)
+                os.remove(os.path.join(root, f))
+                os.link(os.path.join(root, g), os.path.join(root, f))
+                affected["altered"].append(f)
+                muts.append(f"hardlink {f!r} => {g!r}")
+                cs.count("altered_by_hard_link_to_other_file")
+                continue
             b = bytearray(data)
             if how == "flip":
                 b[rng.randrange(len(b))] ^= 1 << rng.randrange(8)
@@ -237,7 +248,12 @@ def run_case(cs):
         if gens == 0 and cmd != "create":
             continue  # verify / diff answer 30 (no history at the root yet)
         work = os.path.join(d, "copy-" + cmd)
-        shutil.copytree(root, work, symlinks=True)
+        # cp -a keeps two names of one file (hard links) two names of one file in the copy, copytree would split them
+        import subprocess
+
+        if subprocess.run(["cp", "-a", root, work]).returncode != 0:
+            shutil.rmtree(work, ignore_errors=True)
+            shutil.copytree(root, work, symlinks=True)
         if cmd == "create":
             r = drive.run("create", [work] + world.fmt_args(world.gen_formats(rng)) + (["-n"] if rng.random() < 0.3 else []))
         else:
